@@ -968,6 +968,8 @@ class Executor:
     def x_For(self, st, env):
         it = self.eval(st.iter, env)
         from . import loops
+        if isinstance(it, SymObj) and getattr(it, 'any_attr', False) and getattr(it, 'pslice', None) is None and '__iterseq__' in self.method_stubs:
+            it = self.method_stubs['__iterseq__'](self, it, [], {})
         if loops.is_symbolic_iterable(it):
             return loops.summarise_for(self, st, it, env)
         items = self.iterate_concrete(it, st)
@@ -992,6 +994,11 @@ class Executor:
             raise SymRaise(TypeError, ("'NoneType' object is not iterable",), origin=self.where(node))
         if isinstance(it, SymSeq) and it.nonempty is False and not it.suffix:
             return []
+        if isinstance(it, SymObj) and getattr(it, 'pslice', None) is not None:
+            return list(it.pslice.values)          # iterating a production object yields the values of its symbols
+        st = self.method_stubs.get('__iter__')
+        if st is not None and isinstance(it, SymObj):
+            return st(self, it, [], {})
         raise Unsupported(f'iteration over {it!r} at {self.where(node)}')
 
     # ------------------------------------------------------------------ expressions
@@ -1053,12 +1060,15 @@ class Executor:
                 d.update(src)
             else:
                 d[self.hashable(self.eval(k, env))] = self.eval(v, env)
-        return d
+        return self.note_symkeys(d)
 
     def hashable(self, k):
-        if isinstance(k, (SymVal,)):
-            raise Unsupported('symbolic dict key')
         return k
+
+    def note_symkeys(self, d):
+        if any(isinstance(k, SymVal) for k in d):
+            self.symkey_dicts = getattr(self, 'symkey_dicts', set()) | {id(d)}
+        return d
 
     def e_JoinedStr(self, e, env):
         parts = []
